@@ -40,14 +40,19 @@ BUDGET = {"quick": 300, "thorough": 1800}
 
 IWS = h2.settings.SettingCodes.INITIAL_WINDOW_SIZE
 CHUNK = 16384
+SIB, BIG = 1, 3  # HTTP/2 stream ids: the sibling is requested first
 BOUND = 160 * 1024
 
 CARRIER_PRESSURE = [("h1", "pause"), ("h2", "win0"), ("h2", "pause"), ("ws/h2", "win0")]
 RELEASES = {
-    "h1": ["none", "resume", "eof", "reset", "wfail", "terminate"],
+    "h1": ["none", "resume", "eof", "reset", "terminate"],
     "h2": ["none", "credit", "resume", "rst", "eof", "reset", "wfail", "terminate"],
     "ws/h2": ["none", "credit", "rst", "eof", "reset"],
 }
+# Events that do not lift the pressure and do not close the connection from the sender's point of view:
+# a client half-close while it still does not read, and the start of a graceful shutdown (in-flight requests
+# may finish).  They are explored for the safety clauses only; no release is demanded after them.
+NOT_A_RELEASE = {("pause", "eof"), ("pause", "terminate"), ("win0", "terminate"), ("pause", "wfail")}
 
 
 def scenarios(tier: str) -> List[Any]:
@@ -68,6 +73,10 @@ def scenarios(tier: str) -> List[Any]:
 
 def bounds(tier: str, params: Any) -> dict:
     if tier == "quick":
+        if params[3] == 64:  # 1 MiB responses are expensive: placement is explored on N=16, size on N=64
+            return {"M": 0, "S": 1, "R": 0}
+        return {"M": 1, "S": 2, "R": 0}
+    if params[3] == 64:
         return {"M": 1, "S": 2, "R": 0}
     return {"M": 2, "S": 3, "R": 1 if params[0] == "trio" else 0}
 
@@ -107,21 +116,21 @@ def build(params: Any) -> tuple:
         if pressure == "win0":
             conn0["h2_settings"] = {IWS: 0}
         if carrier == "h2":
-            client = [("cmd", 0, "preface"), ("cmd", 0, "headers", 3, h2_request_headers(b"GET", b"/sib"), True)] + pre + \
-                     [("cmd", 0, "headers", 1, h2_request_headers(b"GET", b"/big"), True)]
+            client = [("cmd", 0, "preface"), ("cmd", 0, "headers", SIB, h2_request_headers(b"GET", b"/sib"), True)] + pre + \
+                     [("cmd", 0, "headers", BIG, h2_request_headers(b"GET", b"/big"), True)]
             apps = {"http:/big": body_app(n), "http:/sib": SMALL, "http:/other": SMALL}
         else:
-            client = [("cmd", 0, "preface"), ("cmd", 0, "ws_open", 1), ("cmd", 0, "headers", 3, h2_request_headers(b"GET", b"/sib"), True),
-                      ("cmd", 0, "headers", 1, ws_h2_headers(b"/big"), False)]
+            client = [("cmd", 0, "preface"), ("cmd", 0, "ws_open", BIG), ("cmd", 0, "headers", SIB, h2_request_headers(b"GET", b"/sib"), True),
+                      ("cmd", 0, "headers", BIG, ws_h2_headers(b"/big"), False)]
             apps = {"websocket": ws_app(n), "http:/sib": SMALL, "http:/other": SMALL}
     big = 4 * 1024 * 1024
     release = {
         "none": [], "resume": [("resume", 0)], "eof": [("eof", 0)], "reset": [("reset", 0)], "wfail": [("wfail", 0)],
-        "terminate": [("terminate",)], "rst": [("cmd", 0, "rst", 1, 8)],
-        "credit": [("cmd", 0, "winup", 1, big), ("cmd", 0, "winup", 0, big)],
+        "terminate": [("terminate",)], "rst": [("cmd", 0, "rst", BIG, 8)],
+        "credit": [("cmd", 0, "winup", BIG, big), ("cmd", 0, "winup", 0, big)],
     }[rel]
     if rel == "credit" and pressure == "win0" and carrier == "h2":
-        release = [("cmd", 0, "winup", 3, big)] + release
+        release = [("cmd", 0, "winup", SIB, big)] + release
     other = [("connect", 1, {"carrier": "h1", "methods": [b"GET"]}), ("data", 1, h1_request(b"GET", b"/other"))]
     sources = [("client", client), ("release", release), ("other", other)]
     sc = {"level": "conn", "conns": {0: conn0}, "client_factory": make_client, "apps": apps,
@@ -139,7 +148,7 @@ def _big(w: Any) -> Any:
 def _delivered(w: Any) -> int:
     cl = w.conns[0].client
     if cl.h2 is not None:
-        st = cl.h2.streams.get(1)
+        st = cl.h2.streams.get(BIG)
         return 0 if st is None else len(st["body"])
     if cl.h1 is not None and cl.h1.responses:
         return len(cl.h1.responses[0]["body"])
@@ -181,14 +190,14 @@ def oracle(w: Any, params: Any) -> List[dict]:
     # siblings
     fired = [e for _, e in w.driver.fired]
     all_other = ("data", 1, h1_request(b"GET", b"/other")) in fired
-    if all_other:
+    if all_other and rel != "terminate":  # connections arriving after shutdown began are closed at once (C15)
         r1 = w.conns[1].client.h1.responses
         if not (r1 and r1[0]["complete"] and r1[0]["body"] == b"sib"):
             out.append(V("sibling-blocked", f"{tag}:other-connection", f"responses {r1}"))
     if carrier != "h1":
-        sib_requested = any(e[0] == "cmd" and e[2] == "headers" and e[3] == 3 for e in fired)
-        st3 = rec.client.h2.streams.get(3)
-        sib_credit = pressure != "win0" or any(e[0] == "cmd" and e[2] == "winup" and e[3] == 3 for e in fired)
+        sib_requested = any(e[0] == "cmd" and e[2] == "headers" and e[3] == SIB for e in fired)
+        st3 = rec.client.h2.streams.get(SIB)
+        sib_credit = pressure != "win0" or any(e[0] == "cmd" and e[2] == "winup" and e[3] == SIB for e in fired)
         conn_alive = rec.closed_at is None and rec.lost_at is None and not rec.client_eof and not rec.client_reset
         if sib_requested and conn_alive and pressure != "pause" and st3 is not None and st3["headers"] is None:
             out.append(V("sibling-blocked", f"{tag}:stream3-no-headers", "sibling stream got no response head"))
@@ -196,7 +205,7 @@ def oracle(w: Any, params: Any) -> List[dict]:
                 (st3 is None or not st3["ended"] or st3["body"] != b"sib"):
             out.append(V("sibling-blocked", f"{tag}:stream3", f"sibling stream state {st3}"))
     # release
-    released = not _pressure_on(w) and rel != "none"
+    released = not _pressure_on(w) and rel != "none" and (pressure, rel) not in NOT_A_RELEASE
     if inst is not None and released:
         pend = [s for s in inst.sends if s[3] == "pending"]
         if pend:
